@@ -347,6 +347,21 @@ func runC06(c *Ctx) {
 		}
 	}
 
+	// R7 deep-copy preconditions shared with C07
+	pi := loadPdata(p)
+	if len(pi.pkgs) >= 9 {
+		sub := NewCtx(p, "C07", c.Tier, c.Config)
+		runC07State(sub, pi)
+		runC07Scalar(sub, pi)
+		c.Rule("R7", "PROV+WHO", "clone independence preconditions (same rules as C07.R4/R6): every view derived from a payload carries that payload's state, and the scalar one-of wrappers that Value.CopyTo shares between a payload and its clone are never modified in place", 2)
+		for _, o := range sub.Obs {
+			if strings.HasPrefix(o.Construct, "floor:") {
+				continue
+			}
+			c.add(o.Verdict, o.Construct, o.Pos, o.Detail)
+		}
+	}
+
 	// R6 capability aggregation
 	c.Rule("R6", "DEP", "pipeline capability = fan-out consumer's ∨ every processor's MutatesData; connector aggregate = own ∨ every next consumer's; exporter helper declares MutatesData when either batching configuration is enabled", 4)
 	runC06Caps(c)
